@@ -299,7 +299,8 @@ char PROTO_ICACHE_FLASH sproto_pop_in_sdp(void *spd_ptr,
         return SUPLA_RESULT_VERSION_ERROR;
       }
 
-      if ((header_size + _sdp->data_size) > sizeof(TSuplaDataPacket)) {
+      if (_sdp->data_size > SUPLA_MAX_DATA_SIZE ||
+          (header_size + _sdp->data_size) > sizeof(TSuplaDataPacket)) {
         sproto_shrink_in_buffer(&spd->in, spd->in.data_size);
         return SUPLA_RESULT_DATA_ERROR;
       }
